@@ -15,3 +15,5 @@ func composeE(n int, ie func(i int, x int) error, ei func(i int, e error) int) f
 type ra struct{ tr string }
 
 func composeR(n, pat int, hit func(i int, in string) string) func(ra) string { panic("hetero family not built") }
+
+func composeZ(n, pat int, hit func(i int, in string) string) func(string) string { panic("hetero family not built") }
